@@ -124,7 +124,7 @@ def build_and_check(h, work, timeout, mem_gb=8, extra_defines=(), tag='', build_
     log = os.path.join(d, 'log.txt')
     open(log, 'w').close()
     r.log = log
-    defs = ['-D' + x for x in list(h.defines) + list(extra_defines)]
+    defs = ['-D' + x for x in list(h.defines) + list(extra_defines) + (['VX_CANARY'] if h.canary else [])]
     objs = []
     try:
         if h.cpp:
@@ -210,6 +210,15 @@ def build_and_check(h, work, timeout, mem_gb=8, extra_defines=(), tag='', build_
         if not obs:
             raise ToolError('zero obligations generated (vacuous)')
         keep = []
+        canaries = [o for o in obs if o['desc'].startswith('canary:')]
+        obs = [o for o in obs if not o['desc'].startswith('canary:')]
+        if h.canary:
+            # vacuity guard, same run: assert(0) placed after the call under contract must be reachable, i.e. FAIL
+            if not canaries:
+                raise ToolError('vacuity guard: canary assertion not found in the property list')
+            if not any(o['status'] == 'FAILURE' for o in canaries):
+                raise ToolError('vacuity guard: canary assertion did not fail: precondition unsatisfiable or call never returns')
+            r.canary_ok = True
         for o in obs:
             key = o['id'] + ' ' + o['desc']
             ex = None
